@@ -296,8 +296,45 @@ def gen_chain(g, filters=0.0):
                             a = got[0][1]
                             return [a == fv, a != fv, a < fv, a <= fv, a > fv, a >= fv][oc]
                         return '@' + it + ['==', '!=', '<', '<=', '>', '>='][oc] + lit, ('c', isp, oc, [ord(ch) for ch in lit]), t
+                    if k0 < 0.6:
+                        # == / != against a string, boolean or null literal (plain body: no quote of its kind, no backslash)
+                        for _t in range(6):
+                            it, isp = gen_inner(r, r.choice(kids) if kids else None)
+                            if all(st[0] not in (2, 3, 4) for st in isp):
+                                break
+                        else:
+                            it, isp = '', []
+                        seen = [x for k1 in kids for x in inner_reach(isp, [k1])]
+                        kind = r.choice('ssbn')
+                        ne = r.random() < 0.4
+                        if kind == 's':
+                            strs = [x[1] for x in seen if x[0] == 's']
+                            qch = r.choice("'\"")
+                            cand = r.choice(strs).decode('utf-8', 'replace') if strs and r.random() < 0.8 else r.choice(['', 'x', 'a b', '1', 'true', 'null'])
+                            if qch in cand or '\\' in cand:
+                                cand = 'x'
+                            litt = qch + cand + qch
+                            lv = ('s', ord(qch), [ord(ch) for ch in cand])
+                            same = (lambda got, cand=cand: got[0] == 's' and got[1] == cand.encode('utf-8'))
+                        elif kind == 'b':
+                            bv = r.random() < 0.5
+                            spi = r.randrange(3)
+                            litt = [['false', 'False', 'FALSE'], ['true', 'True', 'TRUE']][bv][spi]
+                            lv = ('b', 1 if bv else 0, spi)
+                            same = (lambda got, bv=bv: got[0] == 'b' and got[1] == bv)
+                        else:
+                            spi = r.randrange(3)
+                            litt = ['null', 'Null', 'NULL'][spi]
+                            lv = ('n', spi)
+                            same = (lambda got: got[0] == 'z')
+
+                        def tl(x, isp=isp, ne=ne, same=same):
+                            got = inner_reach(isp, [x])
+                            eq = bool(got) and same(got[0])
+                            return (not eq) if ne else eq
+                        return '@' + it + ('!=' if ne else '==') + litt, ('l', isp, ne, lv), tl
                     it, isp = gen_inner(r, r.choice(kids) if kids else None)
-                    if k0 < 0.7:
+                    if k0 < 0.8:
                         return '@' + it, ('e', isp), (lambda x, isp=isp: bool(inner_reach(isp, [x])))
                     return '!@' + it, ('n', isp), (lambda x, isp=isp: not inner_reach(isp, [x]))
                 dnf = [[one_bq() for _ in range(r.choice([1, 2, 2, 3]))] for _ in range(r.choice([1, 1, 2, 2, 3]))]
@@ -2173,10 +2210,86 @@ class C10(Prop):
             'Non-trivial: >= 1 member selected and >= 2 JSON types under the compared operand')
     trusted = TRUSTED_EVAL + ['json.Number.Float64() is modelled by the exact value of the spelling']
 
+    def from_text(self, ctx, res, g, budget_scale):
+        """literal comparisons written as Coq's fchain_path (one FQ step): `$[?(@.k == 'text')]`, `== true`, `== null`, `!=`, and
+        numbers with all six operators, over members holding every JSON type, in BOTH decodings of the same document: the
+        selection is computed from the document (a literal matches only values of its own JSON type; != is the complement)
+        and must be the same for float64 and json.Number"""
+        r = g.r
+        cases, want = [], {}
+        for i in range(ctx.n(300, 3000) * budget_scale):
+            num_sp = r.choice(['10', '2.5', '0', '-1', '100', '1e2', '3'])
+            leaves = [('s', num_sp.encode()), ('s', b'text'), ('s', b''), ('b', True), ('b', False), ('z',), ('N', num_sp), ('N', '7'), ('a', []), ('o', [])]
+            ms = []
+            for j in range(r.randint(1, 6)):
+                lf = r.choice(leaves)
+                ms.append(('o', [(b'a', lf), (b'u', ('n', float(j)))]) if r.random() < 0.85 else ('o', [(b'u', ('n', float(j)))]))
+            kind = r.choice('ssbnN')
+            ne = r.random() < 0.35
+            if kind == 's':
+                qch = r.choice("'\"")
+                cand = r.choice([num_sp, 'text', '', 'true', 'null', '7'])
+                litt, bqspec = qch + cand + qch, ('l', [(0, [97])], ne, ('s', ord(qch), [ord(ch) for ch in cand]))
+                same = (lambda lf: lf[0] == 's' and lf[1] == cand.encode())
+            elif kind == 'b':
+                bv, spi = r.random() < 0.5, r.randrange(3)
+                litt, bqspec = [['false', 'False', 'FALSE'], ['true', 'True', 'TRUE']][bv][spi], ('l', [(0, [97])], ne, ('b', 1 if bv else 0, spi))
+                same = (lambda lf: lf[0] == 'b' and lf[1] == bv)
+            elif kind == 'n':
+                spi = r.randrange(3)
+                litt, bqspec = ['null', 'Null', 'NULL'][spi], ('l', [(0, [97])], ne, ('n', spi))
+                same = (lambda lf: lf[0] == 'z')
+            else:
+                oc = 1 if ne else 0
+                litt, bqspec = num_sp, ('c', [(0, [97])], oc, [ord(ch) for ch in num_sp])
+                same = (lambda lf: lf[0] == 'N' and float(lf[1]) == float(num_sp))
+            text = '$[?(@.a%s%s)]' % ('!=' if ne else '==', litt)
+            keep = []
+            for m_ in ms:
+                lf = dict(m_[1]).get(b'a')
+                eq = lf is not None and same(lf)
+                if (not eq) if ne else eq:
+                    keep.append(m_)
+
+            def dec(v, jn):
+                if v[0] == 'N':
+                    return ('j', v[1]) if jn else ('n', float(v[1]))
+                if v[0] == 'a':
+                    return ('a', [dec(x, jn) for x in v[1]])
+                if v[0] == 'o':
+                    return ('o', [(k, dec(x, jn)) for k, x in v[1]])
+                return v
+            for jn in (False, True):
+                c = Case('lt%d_%d' % (i, jn), text.encode('utf-8'), [('a', [dec(m_, jn) for m_ in ms])], meta={'family': 'coq-literal-comparison', 'nsteps': 1})
+                c.keyc = [(10, [[bqspec]])]
+                want[c.id] = [core.doc_render(dec(m_, jn)) for m_ in keep]
+                cases.append(c)
+        go, mo = both_sides(cases)
+        for c, g_, m in zip(cases, go, mo):
+            res.evaluations += 1
+            hp = harness_problem(g_) or harness_problem(m)
+            if hp:
+                res.violation('broken-correspondence', 'harness:' + hp[:60], hp, c)
+                continue
+            if m.get('KP') != '1':
+                res.violation('broken-correspondence', 'harness:fchain_path', 'the path sent is not Coq fchain_path of its steps', c)
+                continue
+            r0 = g_.get('R0', '')
+            got = values_of(r0) if r0.startswith('ok:') else []
+            if got != want[c.id] or (r0.startswith('ok:') and not want[c.id]) or g_.get('R0') != m.get('R0'):
+                res.disagreements_checked += 1
+                res.violation('concrete', sig_of(c, 'literal-comparison-from-text'),
+                              '%r selects the members whose value has the type and content of the literal (!= : the others)' % (c.path,), c,
+                              expected=want[c.id], observed={'impl': r0, 'model': m.get('R0')})
+            if want[c.id]:
+                res.nontrivial.add((c.path, core.doc_render(c.docs[0])))
+            res.dist['text:' + cls_of(r0 or 'P')] += 1
+
     def run(self, ctx, res, budget_scale=1, seed_offset=0):
         g = gens.G(ctx.seed * 29 + 10 + seed_offset)
         r = g.r
         n = ctx.n(4000, 80000) * budget_scale
+        self.from_text(ctx, res, gens.G(ctx.seed * 41 + 55 + seed_offset), budget_scale)
         sp = gens.Spelling()
         cases = load_corpus(self.id, ctx.root) if seed_offset == 0 else []
         ncorp = len(cases)
